@@ -7,7 +7,7 @@ def run(ctx):
         "TLC enumerates every session of the bounded ViewIndex generator (rGFA with reference chain, bubbles whose "
         "haplotype segments are not adjacent, optional back/inversion link; GAF = ALL walks of bounded length avoiding a "
         "chosen node set, two offset spans each), in unstable and stable format, plain and multi-block BGZF; the harness "
-        "runs gaftools index and ALL node lists <=2 / ALL regions; TLC (Check_View) decides; non-trivial = session with an "
+        "runs gaftools index and ALL node lists <=2 / ALL regions (plus a 60-segment chain with regions over 49/50/51/all indexed nodes); TLC (Check_View) decides; non-trivial = session with an "
         "unaligned node or a stable-format file"
     )
     run_mode(ctx, "C05")
